@@ -306,10 +306,11 @@ def check_shared(rep, ix):
                                 muts.append((t.value.id, 'item assignment', n.lineno))
         rep.ob('R-C12-SHARED', f'{mod}:<module>', 'no function mutates a module-level container', not muts, found=str(muts), module=m)
         # the requested channel set is one object handed to every file of a sequential batch (the pool pickles a copy per task):
-        # a function that changes it in place makes the result for a file depend on the files converted before it.  The one
-        # accepted site is _add_x_axis_to_channels_to_write (adds the index channel's name).
+        # a function that changes it in place makes the result for a file depend on the files converted before it.  (Until
+        # 2f2fa17 _add_x_axis_to_channels_to_write added the index channel's name in place and this rule exempted it as an idiom;
+        # the exemption hid a genuine defect - see known_findings.json, fixed - and is gone.)
         for f in ast.walk(m.tree):
-            if not isinstance(f, ast.FunctionDef) or f.name == '_add_x_axis_to_channels_to_write':
+            if not isinstance(f, ast.FunctionDef):
                 continue
             for pn in [a.arg for a in f.args.args if a.arg in ('channel_name_sub_set', 'channels', 'channel_set')]:
                 ch = [x for x in common.mutations_of(f, pn) if not (isinstance(x, ast.Assign) and not any(isinstance(t, ast.Subscript) for t in x.targets))]
